@@ -196,7 +196,14 @@ func vsrvC08Script(s *vsrvSession, rng *rand.Rand, d *vsrvC08Desc, directed int)
 				np := 1 + rng.IntN(2)
 				ops, total = nil, 0
 				for k := 1; k <= np; k++ {
-					ops = append(ops, vsrvOp{Kind: 'U', N: k})
+					pn := k
+					if rng.IntN(3) == 0 {
+						pn = 100 + rng.IntN(900) // PUSH_PROMISE + CONTINUATION
+						s.mu.Lock()
+						s.ev["pushes_with_a_field_block_above_16k"]++
+						s.mu.Unlock()
+					}
+					ops = append(ops, vsrvOp{Kind: 'U', N: pn})
 					pt := vsrvPick(rng, 70000, 100000, 300000)
 					pid := uint32(2 * k)
 					planTotal[pid] = pt
